@@ -445,7 +445,7 @@ func recordCrash(args []string) error {
 			}
 			ps.ref, ps.sch = ps.run(idx)
 			idx.Close()
-			w.Emit(map[string]any{"ev": "Begin", "kind": kind, "big": kind == "big", "total": len(distinct), "batch": 1000, "rows": len(rows)})
+			w.Emit(map[string]any{"ev": "Begin", "kind": kind, "big": kind == "big", "total": len(distinct), "batch": 1000, "rows": len(rows), "occupied": false})
 			// crash before the first commit: the file as exclusive creation leaves it
 			empty := path + ".created"
 			db, _ := bbolt.Open(empty, 0644, nil)
@@ -457,6 +457,40 @@ func recordCrash(args []string) error {
 				w.Emit(project(s).event("Snap"))
 				w.Emit(crashOpen(s, ps))
 				os.Remove(s)
+			}
+			// the same data written once more by a fresh in-memory writer onto the now occupied path (the complete index is
+			// still there): Flush must be refused before any transaction commits -- re-creating in place would leave, after
+			// a crash, a file that opens and mixes two indexes
+			if kind == "mem" {
+				before := vx.FileHash(path)
+				var resnaps []string
+				commits := 0
+				updog.VerifHook = func(site string, arg uint64) {
+					if site == "writer.commit" || site == "writer.commit.final" {
+						commits++
+						sn := fmt.Sprintf("%s.resnap%d", path, len(resnaps))
+						copyFile(path, sn)
+						resnaps = append(resnaps, sn)
+					}
+				}
+				w2, err := vx.NewWriter("mem", path)
+				if err != nil {
+					return err
+				}
+				for i, r := range rows {
+					if i%2 == 0 { // other data than what the file holds
+						w2.AddRow(d.RowMap(r))
+					}
+				}
+				ferr := w2.Flush()
+				updog.VerifHook = nil
+				w.Emit(map[string]any{"ev": "Begin", "kind": kind, "big": false, "total": len(distinct), "batch": 1000, "rows": len(rows), "occupied": true})
+				for _, sn := range resnaps {
+					w.Emit(project(sn).event("Snap"))
+					w.Emit(crashOpen(sn, ps))
+					os.Remove(sn)
+				}
+				w.Emit(map[string]any{"ev": "Refused", "failed": ferr != nil, "commits": commits, "unchanged": vx.FileHash(path) == before})
 			}
 			os.Remove(path)
 			if crashHangs >= 3 {
@@ -548,7 +582,7 @@ func killRuns(w *vx.NDWriter, rng *rand.Rand, dir, bin string, kills int) error 
 			}
 			cmd.Process.Signal(syscall.SIGKILL)
 			cmd.Wait()
-			w.Emit(map[string]any{"ev": "Begin", "kind": "cli", "big": big, "total": len(distinct), "batch": 1000, "rows": nrows, "delay_ms": delay.Milliseconds()})
+			w.Emit(map[string]any{"ev": "Begin", "kind": "cli", "big": big, "total": len(distinct), "batch": 1000, "rows": nrows, "delay_ms": delay.Milliseconds(), "occupied": false})
 			w.Emit(project(outp).event("Kill"))
 			w.Emit(crashOpen(outp, ps))
 			os.Remove(outp)
